@@ -28,11 +28,11 @@ type Guard struct {
 }
 
 func G(desc string, alts ...Cond) Guard { return Guard{desc, alts} }
-func IsNil(l string) Cond              { return Cond{l, "==", "^nil$"} }
-func NotNil(l string) Cond             { return Cond{l, "!=", "^nil$"} }
-func True(l string) Cond               { return Cond{l, "T", ""} }
-func False(l string) Cond              { return Cond{l, "F", ""} }
-func Cmp(l, op, r string) Cond         { return Cond{l, op, r} }
+func IsNil(l string) Cond               { return Cond{l, "==", "^nil$"} }
+func NotNil(l string) Cond              { return Cond{l, "!=", "^nil$"} }
+func True(l string) Cond                { return Cond{l, "T", ""} }
+func False(l string) Cond               { return Cond{l, "F", ""} }
+func Cmp(l, op, r string) Cond          { return Cond{l, op, r} }
 
 var reCache = map[string]*regexp.Regexp{}
 
